@@ -164,4 +164,11 @@ theorem lastIn_eq_dictGet {α} (u : Kw α) (k : String) (h : (keys u).Nodup) : l
     · simp only [lastIn, dictGet, hk, if_false, ih']
       cases dictGet k r <;> rfl
 
+/-- may this action write the negative cache? -/
+def mayRemember (d : Desc) : Action → Bool
+  | .skip _ upd => upd
+  | .unknownKind => true
+  | .convert => d.fail.isSome
+  | _ => false
+
 end Malt.Policy
